@@ -57,8 +57,11 @@ def run(ctx):
         cases.append(c)
     for _ in range(n // 2):
         depth = rng.choice([1, 2])
+        how = rng.choice(["fromFiber", "setRoot"])
+        # a tensor shape smaller than the joining fiber's own declared shape: only through setRoot (an explicit shape= argument of fromFiber that is
+        # smaller than the data is the caller's contradiction, not the library's)
         cases.append({"kind": "owner", "tree": rand_tree(rng, 4, depth, pz=0.0, pabs=0.2), "depth": depth, "fdflt": rng.choice([0, 3]), "tdflt": rng.choice([0, 9]),
-                      "fshape": 5, "tshape": rng.choice([5, 8]), "how": rng.choice(["fromFiber", "setRoot"])})
+                      "fshape": 5, "tshape": rng.choice([3, 5, 8] if how == "setRoot" else [5, 8]), "how": how})
     part = family.run_family(ctx, "C14", cases, "harness.exec_attrs", "AttrsTrace.tla", "AttrsTrace.cfg",
                              op_of=lambda c, lg, st: c.get("op", c["kind"]) + (":" + c["style"] if "style" in c else "") + (":" + c["splitkind"] if "splitkind" in c else ""),
                              where_of=lambda c, lg, st: c["kind"] + (":" + classify_tree(c["tree"]) if c["kind"] == "transform" else "") + (":rel" if c.get("rel") else "")
